@@ -243,7 +243,11 @@ func opObsTerm(n *namer, oo OpObs) string {
 		}
 		pend = append(pend, gen.Pair(gen.Pair(n.pointNW(p.Await, p.Weight), gen.Pair(strconv.Itoa(h), strconv.Itoa(o))), gen.Bool(p.Cancelled)))
 	}
-	return fmt.Sprintf("mkOpobs %s %s %s %d %s", resTerm(n, oo.Err), stTerm(oo.State), gen.List(pend), oo.RnField, snapTerm(oo.Vars))
+	push := "None"
+	if p := oo.Push; p != nil {
+		push = fmt.Sprintf("(Some (mkOpush %s %s %s %s %s))", ovTerm(p.Rn), ovTerm(p.Sosor), ovTerm(p.Eosor), ovTerm(p.Soeor), ovTerm(p.Eoeor))
+	}
+	return fmt.Sprintf("mkOpobs %s %s %s %d %s %s", resTerm(n, oo.Err), stTerm(oo.State), gen.List(pend), oo.RnField, snapTerm(oo.Vars), push)
 }
 
 func caseTerm(in Input, o Obs) string {
